@@ -58,7 +58,9 @@ func decodeTotal(c *core.Case, family string, t reflect.Type, in []byte) (err er
 	w := map[string]any{"type": ptypes.TypeString(t), "input_hex": fmt.Sprintf("%x", tr(in)), "input_len": len(in)}
 	class := family + "|" + c03.Shape(t)
 	out = reflect.New(t)
-	buf := append([]byte(nil), in...)
+	// exact capacity: a read behind the input is a slice-bounds panic, not a silent success
+	buf := append(make([]byte, 0, len(in)), in...)
+	in = append(make([]byte, 0, len(in)), in...)
 	var ms0, ms1 runtime.MemStats
 	c.Journal(class + "|Unmarshal")
 	// first call: constructs and caches the codec of the type (not charged to the input)
@@ -232,7 +234,7 @@ func decodePrefilled(c *core.Case, class string, t reflect.Type, in []byte, seed
 	clipSlices(f, tgt, "", &guards, 0)
 	c.Journal(class + "|Unmarshal-prefilled")
 	var err error
-	sig, stk := core.Guard(func() { err = proto.Unmarshal(append([]byte(nil), in...), tgt.Addr().Interface()) })
+	sig, stk := core.Guard(func() { err = proto.Unmarshal(append(make([]byte, 0, len(in)), in...), tgt.Addr().Interface()) })
 	if sig != "" {
 		c.Violation(class+"|Unmarshal-prefilled", sig, fmt.Sprintf("Unmarshal(%x) into a target that already holds a value panicked: %s", tr(in), stk), w)
 		return
